@@ -84,7 +84,9 @@ func TestSeeds(t *testing.T) {
 			}
 		}
 		// and directly, the expression of the original report
-		out, err := (&treeq.Stream{Body: `.root[0] | .members[0].uncompressed | (try (._bytes | tobytes | tostring) catch {verif_err: tostring}), (try (._bits | tobits | tobytes | tostring) catch {verif_err: tostring})`}).Next(map[string]any{"root": treeq.RootHolder(tc.Top)})
+		direct := &treeq.Stream{Body: `.root[0] | .members[0].uncompressed | (try (._bytes | tobytes | tostring) catch {verif_err: tostring}), (try (._bits | tobits | tobytes | tostring) catch {verif_err: tostring})`}
+		defer direct.Close()
+		out, err := direct.Next(map[string]any{"root": treeq.RootHolder(tc.Top)})
 		if err != nil || len(out) != 2 || out[0] != "abc" || out[1] != "abc" {
 			res.Failf("._bytes:error", "gzip of abc: .members[0].uncompressed._bytes|tobytes = %v (%v), want abc", out, err)
 		}
@@ -94,6 +96,37 @@ func TestSeeds(t *testing.T) {
 	if res.Status != "tree" || !seen {
 		if harness.Violate(t.Name(), "harness:seed-shape", "gzip seed did not produce .members[0].uncompressed as a nested buffer root", req) {
 			t.Errorf("gzip seed: status %s, nested root seen %v", res.Status, seen)
+		}
+	}
+
+	// a seek behind the end of the buffer made values with ranges outside
+	// their buffer, inflating all ancestors; tobits/tobytes of them failed
+	// with "outside buffer" (found by C03, repaired in 205b5ad2)
+	{
+		p := &treegen.Program{Input: "00", NBits: 8, Fmts: [][]*treegen.Op{{{K: "seekabs", Off: 24}, {K: "struct", Name: "b"}}}}
+		top, _ := treegen.RunFQ(p)
+		res := &treegen.Result{Status: "tree"}
+		if top != nil {
+			checkTree(treegen.Build(top), p.Data(), p.NBits, 1, res)
+		}
+		req := treegen.Req{Path: "seed:seek-past-end", Format: "program"}
+		count(req, res, "src:seed")
+		report(t, t.Name(), p, req.String(), res)
+		if top == nil {
+			if harness.Violate(t.Name(), "harness:seed-shape", "seek-past-end seed produced no tree", p) {
+				t.Errorf("seek-past-end seed produced no tree")
+			}
+		}
+	}
+	{
+		req := treegen.Req{Path: "format/apple/bookmark/testdata/loop.book", Format: "apple_bookmark", Mut: treegen.Mutation{Kind: "trunc", Off: 52}, Force: true}
+		res := treegen.Run(req, checkTreeCase)
+		count(req, res, "src:seed")
+		report(t, t.Name(), req, req.String(), res)
+		if res.Status != "tree" {
+			if harness.Violate(t.Name(), "harness:seed-shape", "truncated forced apple_bookmark seed produced no tree: "+res.Status+" "+res.Detail, req) {
+				t.Errorf("apple_bookmark seed: %s %s", res.Status, res.Detail)
+			}
 		}
 	}
 }
@@ -138,7 +171,7 @@ func TestMutants(t *testing.T) {
 			t.Errorf("no mutated decode was answered by the worker process")
 		}
 	}()
-	harness.Rapid(t, 3600, 120000, func(rt *rapid.T, c *harness.Case) {
+	harness.Rapid(t, 3600, 100000, func(rt *rapid.T, c *harness.Case) {
 		b := buckets[treegen.UniformIndex(rt, "bucket", len(buckets))]
 		e := corpus[b.Entries[treegen.UniformIndex(rt, "entry", len(b.Entries))]]
 		req := treegen.Req{Path: e.Path, Format: e.Format}
@@ -177,7 +210,7 @@ func TestMutants(t *testing.T) {
 func TestPrograms(t *testing.T) {
 	forceAll = true
 	defer func() { forceAll = false }()
-	harness.Rapid(t, 16000, 1200000, func(rt *rapid.T, c *harness.Case) {
+	harness.Rapid(t, 16000, 800000, func(rt *rapid.T, c *harness.Case) {
 		p := treegen.DrawProgram(rt, 25, 64)
 		c.Set("program", p)
 		res := &treegen.Result{}
@@ -348,7 +381,7 @@ func buildZip(ms []*member) []byte {
 func TestContainers(t *testing.T) {
 	forceAll = true
 	defer func() { forceAll = false }()
-	harness.Rapid(t, 1600, 100000, func(rt *rapid.T, c *harness.Case) {
+	harness.Rapid(t, 1600, 60000, func(rt *rapid.T, c *harness.Case) {
 		kind := rapid.SampledFrom([]string{"gzip", "gzip", "zip"}).Draw(rt, "container")
 		ms := drawMembers(rt, 3)
 		c.Set("container", kind)
